@@ -749,6 +749,22 @@ pub fn configs(ctx: &Ctx, semantic: bool, hash: bool) -> Vec<SCfg> {
             out.push(SCfg { n: 4, vtree: vt.clone(), compress, issue: i + ctx.seed as usize, ite_pool: 10, pool: 1, ..base.clone() });
         }
     }
+    // n = 5 (quick): operand pool with a stride over the pairs, every shape under four leaf orders
+    // (identity, reversed, a rotation and a shuffle: labels and vtree positions disagree)
+    if quick {
+        let mut v5: Vec<VT> = Vec::new();
+        for lo in [[0usize, 1, 2, 3, 4], [4, 3, 2, 1, 0], [4, 0, 1, 2, 3], [2, 4, 0, 3, 1]] {
+            v5.extend(vtrees_over(&lo));
+        }
+        for (i, vt) in v5.into_iter().enumerate() {
+            for &compress in modes.iter() {
+                if !compress && !semantic && i % 2 != 0 {
+                    continue;
+                }
+                out.push(SCfg { n: 5, vtree: vt.clone(), compress, issue: i + ctx.seed as usize, ite_pool: 6, pool: 1, pair_stride: 13, ..base.clone() });
+            }
+        }
+    }
     // n = 5 (thorough): operand pool on every shape with the identity and the reversed leaf order
     // and on a slice of the other labellings
     if !quick {
@@ -791,7 +807,7 @@ pub fn run_all_h(ctx: &Ctx, semantic: bool, hash: bool) -> Report {
     let r = par_run(ctx, &cfgs, |_, c| run_cfg(c, ctx));
     rep.merge(r);
     rep.distinct_nontrivial = rep.transitions;
-    rep.bound("vtrees", json!({"n=3": "all 12, all functions, all ordered pairs", "n=2": "both", "n=4 operand pool (cubes, clauses, functions of <= 2 variables), all ordered pairs": "all 120 vtrees", "n=4 all functions": if ctx.tier == Tier::Quick {"6 of 120 vtrees, pair stride 4099"} else {"all 120, pair stride 257"}}));
+    rep.bound("vtrees", json!({"n=3": "all 12, all functions, all ordered pairs", "n=2": "both", "n=4 operand pool (cubes, clauses, functions of <= 2 variables), all ordered pairs": "all 120 vtrees", "n=4 all functions": if ctx.tier == Tier::Quick {"6 of 120 vtrees, pair stride 4099"} else {"all 120, pair stride 257"}, "n=5 operand pool": if ctx.tier == Tier::Quick {"56 vtrees (14 shapes x 4 leaf orders), all unary operations, pair stride 13"} else {"14 shapes x identity/reversed leaf order + every 97th other vtree, all ordered pairs"}}));
     rep.bound("compression", json!(if semantic {"n/a (semantic builder)"} else {"on and off"}));
     rep.sample(json!({"cfg": {"vtree": "((0 2) 1)", "compress": true, "table_cap": 2}, "ops": ["And(0x96, 0xe8)", "Compose(0xca, 1, 0x3c)", "Ite(0x1b, 0xd8, 0x27)"]}));
     for k in ["apply_case_same_vtree_node", "apply_case_descendant_a", "apply_case_descendant_b", "apply_case_independent"] {
